@@ -322,7 +322,7 @@ fn main() {
     let args = parse_args();
     let t0 = Instant::now();
     install_panic_recorder();
-    let rt = tokio::runtime::Builder::new_multi_thread().worker_threads(8).enable_all().build().unwrap();
+    let rt = tokio::runtime::Builder::new_multi_thread().worker_threads(24).enable_all().build().unwrap();
     let mut rec = Recorder::new("cut: a generated valid BMP stream (Initiation, 2-4 Peer Ups, 2-5 route/statistics messages, optional Peer Down, optional Termination) cut at every byte offset with end-of-input, each io::ErrorKind of the tier's list (non-fatal kinds followed by the rest of the stream) and gate termination, through the real read_from_router; the same around a 4-66 KiB message (boundaries, every 4 KiB multiple, last bytes, random offsets) and at the end of long sessions of rejected messages; tcp: the real accept_config on a loopback connection (close, reset, close mid-message, malformed framing, Termination then close / silence, unit shutdown); non-trivial = at least one Peer Up was processed before the end (there is something to withdraw); distinct = distinct case lines");
     let fatal = |k: ErrorKind| hooks::is_fatal(k);
 
@@ -539,7 +539,9 @@ fn main() {
     jobs.retain(|s| walk(s, &fatal).max_len <= 1 << 20);
     rec.bump_by("cut.skipped-huge-declared-length-after-desync", (before - jobs.len()) as u64);
     rec.bump_by("cut.jobs", jobs.len() as u64);
-    for chunk in jobs.chunks(64) {
+    let mut hangs = 0usize;
+    for chunk in jobs.chunks(16) {
+        if hangs >= 4 { rec.bump("stopped-early-after-4-hangs"); break; }
         verif_harness::journal(&chunk.iter().map(|s| format!("cut|{}", show_script(s))).collect::<Vec<_>>());
         let obs: Vec<Obs> = rt.block_on(async {
             let hs: Vec<_> = chunk.iter().enumerate().map(|(i, s)| { let s = s.clone(); tokio::spawn(async move { run_cut(s, i as u64 + 1).await }) }).collect();
@@ -548,6 +550,7 @@ fn main() {
             out
         });
         for (s, o) in chunk.iter().zip(obs) {
+            if o.end == "hang" { hangs += 1; }
             if let Some(Item::Fault(k)) = s.get(1) { rec.bump(&format!("cut.fault.{}", kind_name(*k))); }
             record(&mut rec, "cut", s, o);
         }
